@@ -89,5 +89,5 @@ def chk_ref(case, note):
     return None
 
 
-LEGS = [Leg("with_ref", chk_ref, strategy=s_ref, quick=48000, thorough=4000000,
+LEGS = [Leg("with_ref", chk_ref, strategy=s_ref, quick=48000, thorough=2000000,
             doc="single frame + reference anywhere in the half-zone box, two references must agree")]
